@@ -168,3 +168,4 @@ package cache
 //@   call SetTimer#0: assert arg_key == key && arg_delay == nd && nok && te != nil
 //@   ensures implies(te != nil && nok, twSets == old(twSets) + 1)
 //@   ensures implies(te == nil, twSets == old(twSets))
+
